@@ -212,6 +212,16 @@ Definition env_ambiguous (ps : list path) : bool :=
   let names := map var_name ps in
   negb (nodupb names).
 
+(** ... and the environment actually sets that variable: which of the two
+    settings it is meant for is undecidable, the load is documented to refuse
+    (C16).  Without the variable set there is nothing to decide. *)
+Definition env_ambiguous_set (e : list (string * string)) (ps : list path) : bool :=
+  existsb (fun p =>
+             match lookup_env (env_prefix ++ var_name p) e with
+             | Some _ => Nat.ltb 1 (List.length (filter (fun q => String.eqb (var_name q) (var_name p)) ps))
+             | None => false
+             end) ps.
+
 Definition env_uncastable (dflts : tree) (cfgs : list dict) (e : list (string * string))
            (ps : list path) : bool :=
   existsb (fun p =>
@@ -233,7 +243,7 @@ Definition merge_reset (p : path) (j : list jev) : bool :=
 Definition view_ok (mw : bool) (dflts overrides : tree) (cfgs : list dict) (e : list (string * string))
            (j : list jev) (view : dict) : bool :=
   let ps := candidates dflts overrides cfgs j view in
-  if env_ambiguous ps || env_uncastable dflts cfgs e ps then true
+  if env_ambiguous_set e ps || env_uncastable dflts cfgs e ps then true
   else
     wf (Node view) &&
     forallb (fun p =>
@@ -254,9 +264,18 @@ Definition env_tl (envs : list (list (string * string))) : list (list (string * 
     root to where its task lives *)
 Fixpoint records_ok (mw : bool) (dflts overrides : tree) (levels : list tree)
          (bodies : nat -> list op) (recs : list brecord) (paths : list (option (list dict)))
-         (envs : list (list (string * string))) (j : list jev) : bool :=
+         (envs : list (list (string * string))) (j : list jev) (esc : option err) : bool :=
   match recs, paths with
-  | [], _ => true
+  | [], _ =>
+      (* after the last body: nothing may escape -- except the documented refusal to load an
+         environment that sets a variable two settings answer to (C16) *)
+      match esc with
+      | None => true
+      | Some er =>
+          err_eqb er EAmbigEnv &&
+          env_ambiguous_set (env_hd envs)
+                            (nub_paths (flat_map (fun l => map fst (leaf_paths l)) levels ++ jpaths j))
+      end
   | (t, v0, outs, v1) :: rest, pth :: paths' =>
       match pth with
       | None => false
@@ -268,7 +287,7 @@ Fixpoint records_ok (mw : bool) (dflts overrides : tree) (levels : list tree)
             Nat.eqb (List.length outs) (List.length (bodies t)) &&
             view_ok mw dflts overrides cfgs e j v0 &&
             view_ok mw dflts overrides cfgs e j' v1 &&
-            records_ok mw dflts overrides levels bodies rest paths' (env_tl envs) j'
+            records_ok mw dflts overrides levels bodies rest paths' (env_tl envs) j' esc
           else true
       end
   | _ :: _, [] => false
@@ -295,10 +314,14 @@ Definition spec_gen (mw : bool) (paths_of : list brecord -> list (option (list d
            (envs : list (list (string * string)))
            (obs : result (list brecord * option err)) : bool :=
   let levels := dflts :: overrides :: map (fun g => Node g) (all_configs c) in
-  if ns_wf c && trees_compatible levels && is_node dflts && is_node overrides then
+  (* levels in which two settings already share a variable name are C16's subject (the load is
+     documented to refuse them): outside the statement.  Pairs that a session CREATES by writing a
+     setting are inside: the edit must persist and the session must go on. *)
+  if ns_wf c && trees_compatible levels && is_node dflts && is_node overrides &&
+     negb (env_ambiguous (nub_paths (flat_map (fun l => map fst (leaf_paths l)) levels))) then
     match obs with
-    | Ok (recs, None) => records_ok mw dflts overrides levels bodies recs (paths_of recs) envs []
-    | _ => false                 (* something escaped Executor.execute *)
+    | Ok (recs, esc) => records_ok mw dflts overrides levels bodies recs (paths_of recs) envs [] esc
+    | Err _ => false
     end
   else true.
 
